@@ -6,6 +6,7 @@
    accepts (the correspondence run shows that the traces of the real endpoints are accepted). *)
 From Coq Require Import List NArith ZArith Bool Arith.
 From M Require Import gen.Consts model.UdpProto proofs.UdpProtoProofs.
+From M Require model.Sizes proofs.SizesProofs proofs.UdpSizesProofs.
 Import ListNotations.
 Open Scope nat_scope.
 
@@ -88,6 +89,42 @@ Print Assumptions C02_progress_by_ack.
 
 Example C02_window_nonvacuous : exists s, wreach s /\ next_recv (base s) < length (assigned (base s)) /\ rwnd s = 0 /\ win (base s) = 0 /\ 0 < rspace s.
 Proof. exact ex_wreach. Qed.
+
+(* peers with different MTUs: whatever legal MTU the PEER is configured with (mtu_ok: [1280,1500]), every datagram
+   it builds - any segment of any Write with any padding draws, any control segment or ack - fits the buffer that
+   readOneSegment hands to ReadFrom, for local MTU 1280, 1400 and 1500, client and server.  The buffer lengths are
+   regenerated on every run by a behavioural probe (consts_c02.go runs readOneSegment on underlays with these local
+   MTUs and records len(b)); if the constant 1500 shrinks or is replaced by the local MTU this theorem breaks. *)
+Theorem C02_peer_mtu_independent : forall peer_mtu mode is_client first n cfg_mid cfg_end s p1 p2 b,
+  SizesProofs.mtu_ok peer_mtu -> SizesProofs.mode_ok mode -> (0 <= n)%Z ->
+  Sizes.emitted is_client first peer_mtu C14_TransportPacket mode n s ->
+  Sizes.draws_ok peer_mtu C14_TransportPacket cfg_mid cfg_end s p1 p2 ->
+  In b UdpSizesProofs.read_buf_lens -> (Sizes.dgram_len s p1 p2 <= b)%Z.
+Proof. exact UdpSizesProofs.peer_mtu_independent. Qed.
+Print Assumptions C02_peer_mtu_independent.
+
+(* ... and a buffer of the minimal legal MTU would truncate a full-size fragment of a peer with the maximal one *)
+Theorem C02_local_mtu_buffer_refuted : exists s p1 p2,
+  Sizes.emitted true false C14_ServerMaxMTU C14_TransportPacket C14_ModeOff 4000 s /\
+  Sizes.draws_ok C14_ServerMaxMTU C14_TransportPacket None None s p1 p2 /\ (Sizes.dgram_len s p1 p2 > C14_ServerMinMTU)%Z.
+Proof. exact UdpSizesProofs.local_mtu_buffer_too_small. Qed.
+Print Assumptions C02_local_mtu_buffer_refuted.
+
+(* inputData never blocks: in EVERY receiver state every arriving segment is dropped or accepted at once - the
+   session's input loop never waits for the application, so the single socket reader shared by all sessions of the
+   underlay is never held up by a session whose application does not read; a full window means DROP. *)
+Theorem C02_input_never_blocks : forall r d, snd (input_data r d) <> InBlocked.
+Proof. exact input_never_blocks. Qed.
+Print Assumptions C02_input_never_blocks.
+
+Theorem C02_input_full_window_drops : forall r d, capN <= length (r_buf r) + r_queue r -> input_data r d = (r, InDropped).
+Proof. exact input_full_window_drops. Qed.
+Print Assumptions C02_input_full_window_drops.
+
+(* the receive-window test is necessary: without it a full recvQueue makes the next segment wait for the application *)
+Theorem C02_input_without_window_test_refuted : exists r d, r_queue r <= capN /\ snd (input_data_nocheck r d) = InBlocked.
+Proof. exact input_nocheck_blocks. Qed.
+Print Assumptions C02_input_without_window_test_refuted.
 
 (* the receiver never goes backwards (rank n - next_recv never increases) *)
 Theorem C02_rank_monotone : forall s l s', lstep s l s' -> next_recv s <= next_recv s'.
